@@ -9,7 +9,7 @@ pkg=./$(dirname "$demo")
 git diff -- . ':!SEED' ':!*zz_seed_demo_test.go' > /tmp/seed/$id.patch
 echo "patch: $(wc -l < /tmp/seed/$id.patch) lines; demo: $demo"
 mv "$demo" /tmp/seed/$id.demo.go
-suite=$(go test -count=1 ./... 2>&1 | grep -v loadhdf5 | grep -v "semadb/SEED" | grep -v "^FAIL$" | grep -E "^(FAIL|---|panic)" | head -5)
+suite=$(go test -count=1 $(go list ./... 2>/dev/null | grep -v "/SEED") 2>&1 | grep -v loadhdf5 | grep -v "semadb/SEED" | grep -v "^FAIL$" | grep -E "^(FAIL|---|panic)" | head -5)
 cp /tmp/seed/$id.demo.go "$demo"
 if [ -n "$suite" ]; then echo "SUITE FAILS WITH CHANGE: $suite"; res_suite=fail; else echo "suite passes with change"; res_suite=pass; fi
 if go test -count=1 -run 'SeedDemo|Seed' "$pkg" >/tmp/seed/$id.with.log 2>&1; then echo "DEMO PASSES WITH CHANGE (bad)"; res_with=pass; else echo "demo fails with change"; res_with=fail; fi
